@@ -147,6 +147,12 @@ def utf8_gen(tier):
             for c1 in cps[::3]:
                 for c2 in cps[1::3]:
                     yield chr(c1).encode("utf-8", "surrogatepass") + b"-" + chr(c2).encode("utf-8", "surrogatepass")
+            # U+0000 is a code point like any other: alone, repeated, and next to characters of every encoding length
+            units = [b"\x00", b"a", "\u00e9".encode("utf-8"), "\u20ac".encode("utf-8"), "\U00010348".encode("utf-8")]
+            for l in (1, 2, 3):
+                for t in itertools.product(units, repeat=l):
+                    if b"\x00" in t:
+                        yield b"".join(t)
         for b in inputs():
             if True:
                 ops = ["isolate", op_ctx(0, True), op_setvar("B", "s" + b.hex()),
@@ -192,8 +198,29 @@ def sval(sym):
 
 
 def check_utf8(case, res, vs):
+    """U+0000 is valid input like any other code point. The module keeps a character as its UTF-8 bytes packed in an integer and
+    moves text through zero-terminated buffers, so it has no place for it: when every observation of a text with NULs is exactly
+    what the independent decoder gives for the text *without* them, that is reported under one key of its own (a recorded
+    finding); any other disagreement keeps its ordinary key."""
+    b = bytes.fromhex(case.meta["b"])
+    if b"\x00" not in b:
+        return _check_utf8(case, res, vs, b)
+    n0 = len(vs)
+    vs1, _ = _check_utf8(case, res, list(vs), b)
+    if len(vs1) == n0:
+        return vs1, True
+    vs2, _ = _check_utf8(case, res, list(vs), b.replace(b"\x00", b""))
+    # (what remains against the text without NULs is the module's numeric convention, reported under its own two keys)
+    if all(v.key in ("utf8:at:returns-utf8-bytes-not-code-point", "utf8:insert:takes-utf8-bytes-not-code-point") for v in vs2[n0:]):
+        vs.extend(vs2[n0:])
+        vs.append(Violation("utf8:nul-dropped", "%r: count / at / substr / insert / remove / string() are those of %r: U+0000 is dropped from the text (%s)" % (
+            b, b.replace(b"\x00", b""), vs1[n0].key), case))
+        return vs, True
+    return vs1, True
+
+
+def _check_utf8(case, res, vs, b):
     m = case.meta
-    b = bytes.fromhex(m["b"])
     st = res["steps"]
     try:
         text = b.decode("utf-8")
